@@ -91,7 +91,7 @@ impl Feed {
 //@event tp_flash_ args=0
 //@event update_pressure
 //@event vle_init_stability free
-//@readonly pressure,ln_phi
+//@readonly pressure,ln_phi,vapor,liquid,vapor_phase_fraction,total_gibbs_energy
     ensures r is Ok ==> r->Ok_0.balanced
 //@end
 }
